@@ -221,6 +221,10 @@ RAW_BLOCKS = ['<pre>raw</pre>', '<pre>raw</pre>', '<pre>\nraw *x*\n\n    more\n<
 MD_BLOCKS = ['para *e*', 'two\nlines', '# h', '## h ##', 'h\n===', 'h\n---', '- a\n- b', '* a\n\n    cont', '1. a\n2. b', '> q', '> q\n> r\n\n> s', '    code', '    code', '    code\n\n    more',
              '\tcode', '```\nfence\n```', '~~~ py\nf\n~~~', '```\nunclosed', '***', '---', '[r]: /u "t"', '| a | b |\n|---|---|\n| c | d |', 'Term\n: def', 'Term\n\n:   def\n\n        code',
              '!!! note\n    x', '!!! note', '[^1]: fn\n\n    more', '*[A]: b', 'a[^1] [r] A', '', ' ', '    ', '- a\n\n        code in item', 'a  \nb', '{: #i }', 'k: v']
+SIBLING_PAIRS = [('<pre>raw</pre>', '    code'), ('<pre>raw</pre>', '    code\n\n    more'), ('<pre></pre>', '    code'), ('<pre>raw</pre>', '\tcode'),
+                 ('<pre><code>a</code></pre>', '    code'), ('<blockquote>raw</blockquote>', '> q'), ('<blockquote></blockquote>', '> q\n> r'),
+                 ('<dl></dl>', 'Term\n: def'), ('<dl><dt>t</dt></dl>', ': def'), ('<p>raw</p>', '    code'), ('<table></table>', '| a | b |\n|---|---|\n| c | d |'),
+                 ('<div class="admonition note"></div>', '    x'), ('<div class="footnote"></div>', 'a[^1]\n\n[^1]: n')]
 CONTAINERS = ['div', 'div', 'section', 'blockquote', 'article', 'aside', 'details', 'p', 'span', 'li', 'td', 'h1', 'pre', 'table']
 MDATTR = ['markdown="1"', 'markdown="1"', 'markdown="block"', 'markdown="span"', 'markdown', "markdown='1'", 'markdown="0"', 'markdown=1', 'MARKDOWN="1"', 'markdown="1" id="i"', 'class="c" markdown="1"']
 
@@ -237,6 +241,10 @@ def md_container(rng, depth=0):
         extra = ' '.join(rng.choice(XATTR) for _ in range(rng.randint(1, 2)))
         attr = attr + ' ' + extra if rng.random() < 0.6 else extra + ' ' + attr
     items = []
+    if rng.random() < 0.25:
+        # a raw element followed directly by the Markdown construct whose processor inspects its previous sibling
+        raw, md = rng.choice(SIBLING_PAIRS)
+        items += [raw, md]
     for _ in range(rng.randint(1, 5)):
         r = rng.random()
         if r < 0.42: items.append(rng.choice(RAW_BLOCKS))
